@@ -229,6 +229,10 @@ func (x *Exec) applyContractNamed(fr *Frame, st *State, con *Contract, names []s
 			x.notes = append(x.notes, "postcondition "+callee+":"+c.Label+" is a listed open finding and is not assumed at call sites")
 			continue
 		}
+		if strings.Contains(c.Raw, "marked(") {
+			// relative to a point inside the callee's body: means nothing to a caller, not assumed
+			continue
+		}
 		st.assume(x.evalClauseBool(c, penv, st))
 	}
 	if len(con.Ensures) > 0 && !fr.pure && fr.depth == 0 && !st.dead && !x.feasible(st) {
@@ -242,6 +246,14 @@ func (x *Exec) applyContractNamed(fr *Frame, st *State, con *Contract, names []s
 	}
 	if !con.Pure {
 		x.checkRunning(fr, st, pos)
+	}
+	if fr.depth == 0 && !fr.pure && site != nil && x.unit != nil && x.unit.Con != nil && len(x.unit.Con.Marks) > 0 {
+		text := x.srcLabel(site.Pos(), "call")
+		for _, m := range x.unit.Con.Marks {
+			if siteMatches(text, m) {
+				st.markHeap = st.heap.clone()
+			}
+		}
 	}
 	k(st, fr, res)
 }
